@@ -115,6 +115,8 @@ impl Store {
         #[cfg(target_family = "wasm")]
         let _ = blocking;
 
+        #[cfg(all(veryl_verif, unix))]
+        veryl_path::verif::point("store:before-read-manifest", &root.join(MANIFEST));
         let parsed = fs::read_to_string(root.join(MANIFEST))
             .ok()
             .and_then(|x| toml::from_str::<Manifest>(&x).ok());
@@ -287,7 +289,11 @@ impl Store {
         }
         self.on_disk_current = true;
 
+        #[cfg(all(veryl_verif, unix))]
+        veryl_path::verif::point("store:before-gc", &self.root);
         self.gc();
+        #[cfg(all(veryl_verif, unix))]
+        veryl_path::verif::point("store:after-gc", &self.root);
     }
 
     /// Removes blobs not referenced by the current manifest.
@@ -312,6 +318,8 @@ impl Store {
                 if path.extension().is_some_and(|x| x == FRAGMENT_EXT)
                     && !referenced.contains(&path)
                 {
+                    #[cfg(all(veryl_verif, unix))]
+                    veryl_path::verif::point("store:gc-remove", &path);
                     let _ = fs::remove_file(&path);
                 }
             }
@@ -327,6 +335,8 @@ enum LockResult {
 
 #[cfg(not(target_family = "wasm"))]
 fn acquire_lock(root: &Path, blocking: bool) -> LockResult {
+    #[cfg(all(veryl_verif, unix))]
+    veryl_path::verif::point("store:before-lock", &root.join("lock"));
     let Ok(lock) = fs::File::create(root.join("lock")) else {
         return LockResult::Unavailable;
     };
